@@ -627,6 +627,32 @@ func cmdC12Oracle(args []string) {
 	var fails []map[string]any
 	var samples []string
 	r := &Rng{s: *seed * 2000003}
+	// always: the top of the 64-bit kinds (thresholds that need the full bit length, the type extremes)
+	for c, fx := range []struct {
+		kind string
+		neg  bool
+		thr  uint64
+	}{{"Uint64", false, 1 << 63}, {"Uint64", false, 1<<63 + 12345}, {"Uint64", false, math.MaxUint64 - 1}, {"Uint64", false, math.MaxUint64},
+		{"Uint", false, 1<<63 + 1}, {"Int64", false, 1<<62 + 1}, {"Int64", false, math.MaxInt64}, {"Int64", true, 1 << 63}, {"Int64", true, 1<<62 + 7}, {"Int", true, 1<<63 - 1}} {
+		var k intKind
+		for _, ik := range intKinds {
+			if ik.name == fx.kind {
+				k = ik
+			}
+		}
+		sd := r.next() | 1
+		how := c % 3
+		got, want, verdict := runThreshold(k, fx.neg, fx.thr, sd, how)
+		stats["fixed_top_thresholds"]++
+		if verdict != "failed" && verdict != "panic" {
+			stats["not_found_in_300_cases"]++
+			continue
+		}
+		if got != want {
+			fails = append(fails, map[string]any{"property": "C12", "what": "minimization does not reach the exact integer boundary", "kind": k.name,
+				"negative": fx.neg, "threshold": want, "reported": got, "seed": sd, "index": 5000 + c})
+		}
+	}
 	for c := 0; c < *n; c++ {
 		k := intKinds[r.intn(len(intKinds))]
 		maxBits := k.bits
